@@ -214,7 +214,7 @@ static bool sendProbeMsg(ethernet_address_t src,
      * Probe/Train frames per MS-LLTD:
      * - Ethernet dest = emitee dest (apparent, next-hop)
      * - Ethernet src  = emitee src (we're spoofing the sender)
-     * - LLTD realDest = mapper's real address (end-to-end)
+     * - LLTD realDest = emitee dest (the station that has to record the probe)
      * - LLTD realSrc  = our MAC (end-to-end identity)
      * The emitee src/dst are what the mapper told us to use on the wire.
      */
@@ -222,7 +222,7 @@ static bool sendProbeMsg(ethernet_address_t src,
                     (const ethernet_address_t *)&src,                               /* ethSource: emitee src */
                     (const ethernet_address_t *)&dst,                               /* ethDest: emitee dst */
                     (const ethernet_address_t *)&our_mac,                            /* realSource: our MAC */
-                    &st->mapper_real,                                               /* realDest: mapper real */
+                    (const ethernet_address_t *)&dst,                               /* realDest: emitee dst */
                     0, code, tos_discovery);
 
     log_lltd_frame("TX",
